@@ -252,6 +252,18 @@ class St:
                 d2 = f + lin  # if f + lin == const >= 1 then lin = const - f >= const >= 1
                 if d2.is_const() and d2.c >= 1:
                     return False
+            # the same with a remainder that is bounded by the atoms' own ranges
+            for f in nfacts:
+                d = lin - f
+                if len(d.terms) < len(lin.terms):
+                    rd = self.lin_range(d)
+                    if not rd.is_empty() and rd.max() <= 0:
+                        return True
+                d2 = lin + f
+                if len(d2.terms) < len(lin.terms):
+                    rd = self.lin_range(d2)
+                    if not rd.is_empty() and rd.min() >= 1:
+                        return False
             return None
         if k == "not":
             d = self.decide(cond[1])
@@ -1381,14 +1393,17 @@ class Interp:
                         return [(st, bb)]
                 return [(st, otherwise)]
             sa = lin.single_atom()
-            if not sa or abs(sa[1]) != 1:
+            if not sa:
                 raise Unanalysable("switch on %r" % (v,))
             a, k, c0 = sa
             cur = st.aset(a)
             by_bb = {}
             covered = IntSet.empty()
             for val, bb in targets:
-                av = (conv(val) - c0) * k
+                # k*a + c0 == val  <=>  a == (val - c0)/k when that is an integer
+                if (conv(val) - c0) % k != 0:
+                    continue
+                av = (conv(val) - c0) // k
                 by_bb.setdefault(bb, []).append(av)
                 covered = covered.union(IntSet.of(av))
             out = []
